@@ -202,6 +202,8 @@ M("tp21_abort_matched_without_pgn", ["C10"], "D42 reverted (J1939-21): abort mat
   ("j1939/j1939_21.py", "self._snd_buffer[buffer_hash]['pgn'] == pgn and ", ""))
 M("tp22_abort_matched_without_pgn", ["C10"], "D42 reverted (J1939-22): abort matched by address pair and session number only",
   ("j1939/j1939_22.py", "self._snd_buffer[buffer_hash]['pgn'] == pgn and ", ""))
+M("dm1_stop_during_callback_ignored", ["C16"], "D43 reverted: _send does not look at the cycle's active flag",
+  ("j1939/diagnostic_messages.py", "        if not cookie.get('active', True):", "        if False:"))
 M("tp21_grant_ignores_rts_limit", ["C09", "C03"], "responder grant ignores the RTS limit",
   ("j1939/j1939_21.py", "            max_num_packages = min(max_num_packages, num_packages)\n", "            max_num_packages = num_packages\n"))
 M("tp21_hold_ignored", ["C09"], "zero-packet CTS treated as 'continue'",
